@@ -674,14 +674,25 @@ def value_def(b, op, depth=0):
     if 1 <= l <= b.argc:
         return ("var", l)
     d = _single_def_of(b, l)
-    if d is None:
-        return ("var", l)
+    if d is None or _mut_borrowed(b, l):
+        return ("var", l)  # assigned more than once, or updated in place through `&mut` (x += y on a non-Copy-by-value operand)
     if d[0] == "call":
         return ("call", d[1], d[3])
     rv = d[3]["rv"]
     if rv["k"] == "use" and depth < 8:
         return value_def(b, rv["a"], depth + 1)
     return ("rv", d[1], rv)
+
+
+def _mut_borrowed(b, l):
+    cache = b.__dict__.setdefault("_mut_borrowed_cache", None)
+    if cache is None:
+        cache = set()
+        for i, k, st in b.stmts():
+            if st["k"] == "assign" and st["rv"]["k"] in ("ref", "rawptr") and st["rv"].get("mut") and "*" not in (st["rv"]["p"].get("pr") or []):
+                cache.add(st["rv"]["p"]["l"])
+        b.__dict__["_mut_borrowed_cache"] = cache
+    return l in cache
 
 
 def cas_loop(fn, binop, value_param=1):
